@@ -593,6 +593,8 @@ def write_replay(prop, seed, n, payload):
 def case_payload(f):
     r = f.case
     d = {"kind": {"K": "correspondence", "O": "oracle-failure", "H": "hang", "I": "internal"}[f.kind], "detail": f.detail}
+    if getattr(f, "scenario", None):
+        d["scenario"] = f.scenario     # harness sub-command that reproduces the failure in a child process
     if r is not None:
         d["case"] = "\n".join(r.raw) + "\n"
         d["case_id"] = r.cid
@@ -611,6 +613,23 @@ def case_payload(f):
 def run_replay(prop, path):
     d = json.load(open(path))
     text = d.get("case")
+    if not text and d.get("scenario"):
+        ok, log = runner.build_harness()
+        import subprocess, re as _re
+        args = [runner.harness_bin(False)] + list(d["scenario"])
+        try:
+            p = subprocess.run(args, stdout=subprocess.PIPE, stderr=subprocess.PIPE, text=True, timeout=1800)
+            rc, out, err = p.returncode, p.stdout, p.stderr
+        except subprocess.TimeoutExpired:
+            rc, out, err = -999, "", "timeout"
+        print("scenario:", " ".join(d["scenario"]), "-> exit", rc, out.strip()[-200:], err.strip()[-200:])
+        m = _re.search(r"depths=(\d+)\.\.(\d+)", out)
+        span = (int(m.group(2)) - int(m.group(1))) if m else 0
+        if rc != 0 or "DONE" not in out or "teardown_order=mixed" in out or span > 2048:
+            print("VIOLATION property=%s replay=%s" % (prop, path))
+            return 1
+        print("replay passes")
+        return 0
     if not text:
         print("replay file has no case; it names a broken obligation or correspondence:", d.get("detail"))
         return 1
